@@ -497,6 +497,18 @@ def g_nc_handshake(rng, tier, props):
     return GN.handshake_histories(rng, props, n_of(tier, 250, 5000), tier != "quick") + GN.expiry_histories(rng, props)
 
 
+def g_nc_tokentable(rng, tier, props):
+    return GN.token_table_histories(props, fillers=(2048,))
+
+
+def g_nc_tokentable_under(rng, tier, props):
+    return GN.token_table_histories(props, fillers=(2047,))
+
+
+def g_nc_tokentable_thorough(rng, tier, props):
+    return GN.token_table_histories(props) if tier != "quick" else []
+
+
 def g_nc_shapes(rng, tier, props):
     return (GN.shape_schedules(rng, props, tier != "quick") + GN.token_byte_schedules(rng, props, tier != "quick")
             + GN.forged_then_genuine(rng, props, n_of(tier, 40, 600)))
@@ -639,7 +651,8 @@ PLANS = {
     "C04": Plan("nc", "TraceNetcodeMon", ["C04"], [("payload_histories", g_nc_payload)],
                 mc=[mc_job("nc_payload", "MC_Netcode", {"quick": ["MC_NC_q4.cfg"], "thorough": ["MC_NC_q4.cfg", "MC_NC_q1.cfg"]}, ["C04"], strict=False)],
                 level="model_checking", assumptions=NC_ASSUME),
-    "C05": Plan("nc", "TraceNetcodeMon", ["C05"], [("handshake_histories", g_nc_handshake)],
+    "C05": Plan("nc", "TraceNetcodeMon", ["C05"], [("handshake_histories", g_nc_handshake), ("token_table", g_nc_tokentable),
+                                                       ("token_table_under", g_nc_tokentable_under)],
                 mc=[mc_job("nc_cross", "MC_Netcode", {"quick": ["MC_NC_q1.cfg"], "thorough": ["MC_NC_q1.cfg", "MC_NC_q2.cfg", "MC_NC_q3.cfg", "MC_NC_bad.cfg"]}, ["C05"], strict=False)],
                 level="model_checking", assumptions=NC_ASSUME),
     "C07": Plan("nc", "TraceNetcodeMon", ["C07"], [("shapes", g_nc_shapes), ("bits", g_nc_bits), ("handshake_histories", g_nc_handshake)],
@@ -672,7 +685,7 @@ PLANS = {
                 mc=[mc_job("nc_live", "MC_Netcode", {"quick": ["MC_NC_live_q.cfg"], "thorough": ["MC_NC_live_q.cfg", "MC_NC_limit.cfg", "MC_NC_live.cfg"]}, ["C18"], strict=False,
                            timeout_t=3600)],
                 level="model_checking", assumptions=NC_ASSUME),
-    "C19": Plan("nc", "TraceNetcodeMon", ["C19"], [("handshake_histories", g_nc_handshake), ("shapes", g_nc_shapes)],
+    "C19": Plan("nc", "TraceNetcodeMon", ["C19"], [("handshake_histories", g_nc_handshake), ("shapes", g_nc_shapes), ("token_table", g_nc_tokentable_thorough)],
                 mc=[mc_job("nc_cross", "MC_Netcode", {"quick": ["MC_NC_q1.cfg"], "thorough": ["MC_NC_q1.cfg", "MC_NC_q3.cfg", "MC_NC_bad.cfg"]}, ["C19"], strict=False)],
                 level="model_checking", assumptions=NC_ASSUME),
     "C01": Plan("msg", "TraceRenetMon", ["C01"], [("random_ro", g_random_ro), ("random_mixed", g_random_mixed)],
